@@ -64,6 +64,7 @@ func (db *DB) Merge() error {
 	mergePath := db.mergePath()
 	// 如果存在上次 merge 的残留目录, 将其删除
 	if _, err := os.Stat(mergePath); err == nil {
+		verifhook.Point("merge.rmleftover", mergePath)
 		if err := os.RemoveAll(mergePath); err != nil {
 			return err
 		}
